@@ -66,6 +66,20 @@ after every history; attribute tensor names in the to_proto projection), in-plac
 Harness: one serialization warm-up before the first dump (serde syncs initializer tensor names), at most one
 initializer name per tensor object in generated models, every tensor object is a root of the initial heap.
 
+Second deepening round: (1) per-run translation of the source.  generate() regenerates Gen/C13Gen.v from /repo:
+(a) the statements (one normalised string each, error messages dropped) of the seven Cloner methods, the four clone()
+entry points in _core.py and _FunctionalPassWrapper.call - Property.v C13_source_pinned proves them equal to
+C13/Pinned.v (the statements the model was written against, with the method -> model definition table), so ANY edit of
+these methods breaks a proof obligation (all seeded changes of rounds 1-5 edited exactly these methods);
+(b) Cloner._remap_device_configurations translated statement by statement (RemapTranslator: lets, appends, two
+nested for loops as fold_left over the assigned variables, continue, if/else, conditional return; fail closed) into
+gen_remap, proved equal to the model's map (remap_dev m) for every None-free value map (C13_remap_translation,
+C13/GenEquiv.v), and run against the method itself on 150 (1500) random value maps / configurations per run inside
+Coq, 40% of them with None-mapped values (the "drop the spec" branch the clone() entry points never reach).
+(2) Type denotation (every level of the element-type chain), MetadataStore invalid keys and Node.overload were
+already model fields covered by C13_fresh / C13_faithful; C13_canon_observes_denotation_invalid_keys_overload makes
+that explicit.  Still not modelled: sharing of an INNER element-type object between two values of the original.
+
 Readings of the English (weaker reading where ambiguous):
   * "tensors may be shared" and non-graph Attr objects are shared by the code on purpose: mutating a shared Attr
     object in place (attr.name / doc_string / meta) or a tensor's own fields is outside the property; "attribute
@@ -1984,12 +1998,12 @@ def run(ck) -> None:
     seen: set = set()
     # ---- the translated _remap_device_configurations against the method itself (translator validation)
     try:
-        for m in remap_grid(ck, 150 if not ck.thorough else 1500)[:3]:
+        for m in remap_grid(ck, 100 if not ck.thorough else 1500)[:3]:
             ck.broken("translation:_remap_device_configurations", json.dumps(m))
     except RuntimeError as e:
         ck.broken("translation:_remap_device_configurations", str(e))
     # ---- corpus + generated cases: correspondence model <-> implementation
-    n = 120 if not ck.thorough else 4800
+    n = 100 if not ck.thorough else 4800
     nops = 6 if not ck.thorough else 10
     specs = load_corpus() + [spec_for(ck.rng, i) for i in range(n)]
     try:
@@ -2024,7 +2038,7 @@ def run(ck) -> None:
         ck.broken("correspondence:clone-model-vs-implementation",
                   json.dumps({"spec": sp, "stage": CODE_MEANING.get(code, str(code))}))
     # ---- the oracle on the same scenarios (and more)
-    extra = 60 if not ck.thorough else 3000
+    extra = 40 if not ck.thorough else 3000
     ospecs = specs + [spec_for(ck.rng, i) for i in range(extra)]
     for sp, _ in bad:
         ospecs.insert(0, sp)
